@@ -319,7 +319,7 @@ class node_add_source:
     modifies = []
 
     @staticmethod
-    def ensures(self, source, result):
+    def assume_post(self, source, result):
         db = db_of(self)
         old = View(db.__snapshot__())
         db.bump()
